@@ -372,7 +372,7 @@ class NetworkService(ModelElement):
             raise
         self._interfaces.append(peer_if)
 
-    def disconnect_interface(self, interface: Interface) -> None:
+    def disconnect_interface(self, interface: Interface, _internal: bool = False) -> None:
         """
         Disconnect a node interface from the network service.
         Transparently remove peer service interface and link between them.
@@ -389,6 +389,10 @@ class NetworkService(ModelElement):
         if len(peers) > 1:
             raise TopologyException(f'Interface {interface} has more than one peer: {peers}, '
                                     f'this is a model error, unable to proceed.')
+
+        if not _internal and interface.type == InterfaceType.ServicePort:
+            # a peering port made by peer(): removing its peer would leave it without one
+            raise TopologyException(f'Interface {interface.name} is a peering port, use unpeer() to remove the peering.')
 
         self.topo.graph_model.remove_cp_and_links(node_id=peers[0].node_id)
         # remove from interface list as well
